@@ -1,7 +1,7 @@
 (* C04 — pinned statements (model: Queue/Model.v; pure WakerTracker: Queue/Waker.v). *)
 From Coq Require Import List NArith Bool Arith.
 From MV Require Import Queue.Model Queue.Spec Queue.Inv Queue.Reports Queue.Flush Queue.FlushLog Queue.Bounded
-                       Queue.Wakeup Queue.Waker Queue.WakerRefine.
+                       Queue.Wakeup Queue.Waker Queue.WakerRefine Queue.Shutdown.
 Import ListNotations.
 
 (* THE BARRIER.  For every capacity and every schedule: if request w — sent when n entries had been appended —
@@ -97,6 +97,17 @@ Theorem c04_all_woken_after_exit : forall c s, 0 < cap c -> reachable c s -> pc 
   forall w, In w (map fst (freq (gh s))) -> In (EWake w) (out (gh s)).
 Proof. exact all_woken_after_exit. Qed.
 Print Assumptions c04_all_woken_after_exit.
+
+(* A request that is only completed by the thread's end: if it was sent before the shutdown flag was stored and
+   the shutdown drain was complete, the barrier holds for it too (the stream was flushed before it was dropped). *)
+Theorem c04_barrier_at_exit : forall c s w n m,
+  0 < cap c -> reachable c s -> pc (wr s) = WExited -> sdhit (gh s) = false ->
+  In (w, n) (freq (gh s)) -> sdmark (gh s) = Some m -> n <= m ->
+  (exists pre b, stream_events (out (gh s)) = pre ++ [EFlush b; EDropStream]) /\
+  forall e, In e (firstn n (pushed (gh s))) ->
+            In e (nexts (out (gh s))) \/ In e (displaced (removed (gh s))).
+Proof. exact barrier_at_exit. Qed.
+Print Assumptions c04_barrier_at_exit.
 
 (* THE COMPONENT: the pure WakerTracker function is what the LTS executes (cut at its shared operations) ... *)
 Theorem c04_waker_refines : forall c s o,
